@@ -7,7 +7,9 @@
 (*     Poll ; for each event: loop { Reset ; Collect <= B datagrams ;        *)
 (*            SendIetf ; SendClassic ; break if the socket was found empty } *)
 (* with datagrams arriving at any moment. One action per code section.      *)
-(* Datagram kinds: "C" valid classic, "I" valid IETF, "X" invalid.          *)
+(* Datagram kinds: "C" valid classic, "I" valid IETF, "X" invalid,          *)
+(* "U" valid classic from a source the OS refuses to send to.              *)
+(* The statistics recorder is part of the loop (C17 wiring).                *)
 (* Refines ServerAbs: exactly one response per valid request, to its        *)
 (* sender, from a batch of its own protocol, proving its own slot.          *)
 (***************************************************************************)
@@ -20,6 +22,10 @@ CONSTANTS B,            \* batch_size
                                   \* datagrams are queued); FALSE = edge-triggered (reported once per arrival burst)
           MaxBatches,             \* batches handled per wake-up (MAX_BATCHES_PER_WAKEUP); with an edge-triggered socket
                                   \* only an unbounded drain is safe
+          Kinds,                  \* kinds of datagrams: "C" valid classic, "I" valid IETF, "X" invalid, and "U" = a valid classic
+                                  \* request whose source address the operating system refuses to send to (send_to fails)
+          StaleFailFlag,          \* FALSE = as coded: the success flag is per response. TRUE = a (wrong) variant in which one failed send
+                                  \* makes the recorder count the rest of the batch as failed too (kept as a self-test of StatsResponses)
           DrainExitsOnEmptyBatch  \* FALSE = as coded. TRUE = a (wrong) variant that leaves the drain loop when a
                                   \* batch contained no valid request; kept to show the spec detects stranding
 
@@ -34,16 +40,16 @@ VARIABLES sockq,        \* kernel receive queue: sequence of [id, k, src]
           arrived,      \* ids handed out
           nb,           \* batches handled in the current wake-up
           nrecv, nempty,\* hook ordinals within this run: recv events, recv_empty events
+          stats,        \* the statistics recorder as wired into the loop: [valid, invalid, responses, failed]
           hist          \* arrival schedule as the harness can reproduce it
 
-vars == <<sockq, edge, pc, polled, i, reqI, reqC, empty, out, arrived, nb, nrecv, nempty, hist>>
-view == <<sockq, edge, pc, polled, i, reqI, reqC, empty, out, arrived, nb>>
+vars == <<sockq, edge, pc, polled, i, reqI, reqC, empty, out, arrived, nb, nrecv, nempty, stats, hist>>
+view == <<sockq, edge, pc, polled, i, reqI, reqC, empty, out, arrived, nb, stats>>
 
-Kinds == {"C", "I", "X"}
 
 Init == /\ sockq = <<>> /\ edge = FALSE /\ pc = "poll" /\ polled = FALSE /\ i = 0
         /\ reqI = <<>> /\ reqC = <<>> /\ empty = FALSE /\ out = {} /\ arrived = 0
-        /\ nb = 0 /\ nrecv = 0 /\ nempty = 0 /\ hist = [pre |-> <<>>, inj |-> <<>>]
+        /\ nb = 0 /\ nrecv = 0 /\ nempty = 0 /\ stats = [valid |-> 0, invalid |-> 0, responses |-> 0, failed |-> 0] /\ hist = [pre |-> <<>>, inj |-> <<>>]
 
 \* where, in terms of the hooks, an arrival happens
 ArrivalPoint == IF nrecv = 0 /\ pc = "poll" /\ nempty = 0 THEN "pre"
@@ -57,36 +63,45 @@ Arrive(k, s) ==
     /\ edge' = TRUE
     /\ hist' = IF ArrivalPoint = "pre" THEN [hist EXCEPT !.pre = Append(@, k)]
                ELSE [hist EXCEPT !.inj = Append(@, <<ArrivalPoint, IF ArrivalPoint = "recv" THEN nrecv ELSE nempty, k>>)]
-    /\ UNCHANGED <<pc, polled, i, reqI, reqC, empty, out, nb, nrecv, nempty>>
+    /\ UNCHANGED <<pc, polled, i, reqI, reqC, empty, out, nb, nrecv, nempty, stats>>
 
 Ready == IF LevelTriggered THEN sockq # <<>> ELSE edge
 Poll == /\ pc = "poll" /\ Ready              \* (a poll with nothing ready just times out and polls again)
         /\ edge' = FALSE /\ polled' = TRUE /\ pc' = "reset" /\ nb' = 0
-        /\ UNCHANGED <<sockq, i, reqI, reqC, empty, out, arrived, nrecv, nempty, hist>>
+        /\ UNCHANGED <<sockq, i, reqI, reqC, empty, out, arrived, nrecv, nempty, stats, hist>>
 
 Reset == /\ pc = "reset"
          /\ reqI' = <<>> /\ reqC' = <<>> /\ i' = 0 /\ empty' = FALSE /\ pc' = "collect"
-         /\ UNCHANGED <<sockq, edge, polled, out, arrived, nb, nrecv, nempty, hist>>
+         /\ UNCHANGED <<sockq, edge, polled, out, arrived, nb, nrecv, nempty, stats, hist>>
 
 Collect ==
     /\ pc = "collect"
-    /\ IF i = B THEN /\ pc' = "sendI" /\ UNCHANGED <<sockq, i, reqI, reqC, empty, nrecv, nempty>>
+    /\ IF i = B THEN /\ pc' = "sendI" /\ UNCHANGED <<sockq, i, reqI, reqC, empty, nrecv, nempty, stats>>
        ELSE IF sockq = <<>> THEN /\ empty' = TRUE /\ nempty' = nempty + 1 /\ pc' = "sendI"       \* WouldBlock
-                                 /\ UNCHANGED <<sockq, i, reqI, reqC, nrecv>>
+                                 /\ UNCHANGED <<sockq, i, reqI, reqC, nrecv, stats>>
        ELSE LET d == Head(sockq) IN
             /\ sockq' = Tail(sockq) /\ i' = i + 1 /\ nrecv' = nrecv + 1
             /\ reqI' = IF d.k = "I" THEN Append(reqI, d) ELSE reqI
-            /\ reqC' = IF d.k = "C" THEN Append(reqC, d) ELSE reqC
+            /\ reqC' = IF d.k \in {"C", "U"} THEN Append(reqC, d) ELSE reqC
+            \* the recorder counts every datagram once, here: as a valid request of its protocol or as invalid
+            /\ stats' = IF d.k = "X" THEN [stats EXCEPT !.invalid = @ + 1] ELSE [stats EXCEPT !.valid = @ + 1]
             /\ UNCHANGED <<pc, empty, nempty>>
     /\ UNCHANGED <<edge, polled, out, arrived, nb, hist>>
 
+\* every queued request gets its own index and path; the send to an unroutable source fails: nothing leaves,
+\* the recorder counts one failed send for it and a response (with its bytes) for each of the others
 Resp(v, rs) == {[req |-> rs[j].id, dst |-> rs[j].src, v |-> v, idx |-> j - 1, n |-> Len(rs),
-                 batch |-> [m \in 1..Len(rs) |-> rs[m].id]] : j \in 1..Len(rs)}
+                 batch |-> [m \in 1..Len(rs) |-> rs[m].id]] : j \in {x \in 1..Len(rs) : rs[x].k # "U"}}
+NFailed(rs) == Cardinality({x \in 1..Len(rs) : rs[x].k = "U"})
+FirstFail(rs) == IF NFailed(rs) = 0 THEN Len(rs) + 1 ELSE CHOOSE x \in 1..Len(rs) : rs[x].k = "U" /\ \A y \in 1..(x - 1) : rs[y].k # "U"
+Counted(rs) == IF StaleFailFlag
+               THEN [stats EXCEPT !.responses = @ + FirstFail(rs) - 1, !.failed = @ + Len(rs) - (FirstFail(rs) - 1)]
+               ELSE [stats EXCEPT !.responses = @ + Len(rs) - NFailed(rs), !.failed = @ + NFailed(rs)]
 
-SendI == /\ pc = "sendI" /\ out' = out \cup Resp("I", reqI) /\ pc' = "sendC"
+SendI == /\ pc = "sendI" /\ out' = out \cup Resp("I", reqI) /\ pc' = "sendC" /\ stats' = Counted(reqI)
          /\ UNCHANGED <<sockq, edge, polled, i, reqI, reqC, empty, arrived, nb, nrecv, nempty, hist>>
 
-SendC == /\ pc = "sendC" /\ out' = out \cup Resp("C", reqC)
+SendC == /\ pc = "sendC" /\ out' = out \cup Resp("C", reqC) /\ stats' = Counted(reqC)
          /\ LET leave == empty \/ nb + 1 >= MaxBatches \/ (DrainExitsOnEmptyBatch /\ reqI = <<>> /\ reqC = <<>>) IN
             IF leave THEN pc' = "poll" /\ polled' = FALSE ELSE pc' = "reset" /\ UNCHANGED polled
          /\ nb' = nb + 1
@@ -110,6 +125,11 @@ BatchBound == Len(reqI) + Len(reqC) <= B /\ i <= B
 \* at quiescence every valid request received has its response
 Quiescent == pc = "poll" /\ sockq = <<>> /\ (LevelTriggered \/ ~edge)
 ValidIds == {r.req : r \in out}
+\* C17 wiring: every consumed datagram is counted exactly once; responses counted are the responses sent; once the
+\* worker is back in poll every valid request has been either answered or counted as a failed send
+StatsConserve == stats.valid + stats.invalid = nrecv
+StatsResponses == stats.responses = Cardinality(out)
+StatsSettled == pc = "poll" => stats.valid = stats.responses + stats.failed
 \* liveness: the worker always gets back to poll, and every arrived datagram is eventually consumed
 Responsive == []<>(pc = "poll") /\ \A n \in 1..MaxArr : [](arrived >= n => <>(nrecv >= n))
 =============================================================================
